@@ -3,9 +3,20 @@
 package peerstream
 
 import (
+	"context"
+	"sort"
 	"time"
 
+	"github.com/hashicorp/go-hclog"
+
+	"github.com/hashicorp/consul/agent/cache"
+	"github.com/hashicorp/consul/agent/connect"
+	"github.com/hashicorp/consul/agent/consul/state"
+	"github.com/hashicorp/consul/agent/consul/stream"
+	"github.com/hashicorp/consul/agent/structs"
+	"github.com/hashicorp/consul/agent/submatview"
 	"github.com/hashicorp/consul/proto/private/pbpeerstream"
+	"github.com/hashicorp/consul/proto/private/pbservice"
 )
 
 // Export shim for the C17 correspondence harness (/verif). Compiled only with -tags verif
@@ -19,4 +30,121 @@ func VerifC17NewStatus() *MutableStatus { return newMutableStatus(time.Now, true
 func (s *Server) VerifC17ProcessResponse(peerName, partition string, mst *MutableStatus,
 	resp *pbpeerstream.ReplicationMessage_Response) (*pbpeerstream.ReplicationMessage, error) {
 	return s.processResponse(peerName, partition, mst, resp)
+}
+
+// ---------------------------------------------------------------- exporting side, end to end
+
+// VerifC17Exporter is an exporting cluster: a real state store with a real event publisher and a real
+// subscriptionManager subscribed for one peer (plain services only: ConnectEnabled = false).
+type VerifC17Exporter struct {
+	Store  *state.Store
+	Ch     <-chan cache.UpdateEvent
+	Cancel context.CancelFunc
+}
+
+func VerifC17NewExporterStore() (*state.Store, *stream.EventPublisher, context.Context, context.CancelFunc) {
+	publisher := stream.NewEventPublisher(10 * time.Second)
+	gc, err := state.NewTombstoneGC(time.Second, time.Millisecond)
+	if err != nil {
+		panic(err)
+	}
+	store := state.NewStateStoreWithEventPublisher(gc, publisher)
+	for _, e := range []error{
+		publisher.RegisterHandler(state.EventTopicServiceHealth, store.ServiceHealthSnapshot, false),
+		publisher.RegisterHandler(state.EventTopicServiceHealthConnect, store.ServiceHealthSnapshot, false),
+		publisher.RegisterHandler(state.EventTopicCARoots, store.CARootsSnapshot, false),
+	} {
+		if e != nil {
+			panic(e)
+		}
+	}
+	ctx, cancel := context.WithCancel(context.Background())
+	go publisher.Run(ctx)
+	return store, publisher, ctx, cancel
+}
+
+// VerifC17Subscribe starts the real subscription manager for the peer on the exporting store; the returned
+// channel carries what the stream handler would send to the peer.
+func VerifC17Subscribe(ctx context.Context, store *state.Store, publisher *stream.EventPublisher, peerID, peerName string) <-chan cache.UpdateEvent {
+	tracker := newResourceSubscriptionTracker()
+	tracker.Subscribe(pbpeerstream.TypeURLExportedService)
+	mgr := newSubscriptionManager(ctx, hclog.NewNullLogger(), Config{Datacenter: "dc1", ConnectEnabled: false},
+		connect.TestTrustDomain, publisher, func() StateStore { return store }, tracker)
+	return mgr.subscribe(ctx, peerID, peerName, "")
+}
+
+// VerifC17MakeResponse turns a published event into the replication response the stream handler sends.
+func VerifC17MakeResponse(mst *MutableStatus, evt cache.UpdateEvent) (*pbpeerstream.ReplicationMessage_Response, bool, error) {
+	if evt.CorrelationID == subExportedServiceList {
+		r, err := makeExportedServiceListResponse(mst, evt)
+		return r, true, err
+	}
+	r, err := makeServiceResponse(evt)
+	return r, false, err
+}
+
+// VerifC17Flatten is the exporter's documented normalisation of one instance's checks.
+func VerifC17Flatten(node, sid, sname string, checks []*pbservice.HealthCheck) []*pbservice.HealthCheck {
+	return flattenChecks(node, sid, sname, nil, checks)
+}
+
+// ---------------------------------------------------------------- exporting side, duplicate suppression alone
+
+type nopViewStore struct{}
+
+func (nopViewStore) Get(context.Context, submatview.Request) (submatview.Result, error) {
+	return submatview.Result{}, nil
+}
+func (nopViewStore) Notify(context.Context, submatview.Request, string, chan<- cache.UpdateEvent) error {
+	return nil
+}
+
+// VerifC17Dedup drives the real handleEvent synchronously (watches are not started: the harness plays them).
+type VerifC17Dedup struct {
+	m   *subscriptionManager
+	st  *subscriptionState
+	pub chan cache.UpdateEvent
+}
+
+func VerifC17NewDedup() *VerifC17Dedup {
+	d := &VerifC17Dedup{
+		m:   &subscriptionManager{logger: hclog.NewNullLogger(), config: Config{Datacenter: "dc1"}, viewStore: nopViewStore{}},
+		st:  newSubscriptionState("peer", ""),
+		pub: make(chan cache.UpdateEvent, 16),
+	}
+	d.st.publicUpdateCh = d.pub
+	d.st.updateCh = make(chan cache.UpdateEvent, 16)
+	return d
+}
+
+func (d *VerifC17Dedup) drain() (n int) {
+	for {
+		select {
+		case <-d.pub:
+			n++
+		default:
+			return
+		}
+	}
+}
+
+// List plays one exported-service-list event; returns whether the list was sent and the watched services.
+func (d *VerifC17Dedup) List(names []string) (sent bool, watched []string, err error) {
+	evt := &structs.ExportedServiceList{}
+	for _, n := range names {
+		evt.Services = append(evt.Services, structs.ServiceNameFromString(n))
+	}
+	err = d.m.handleEvent(context.Background(), d.st, cache.UpdateEvent{CorrelationID: subExportedServiceList, Result: evt})
+	sent = d.drain() > 0
+	for sn := range d.st.watchedServices {
+		watched = append(watched, sn.Name)
+	}
+	sort.Strings(watched)
+	return
+}
+
+// Data plays one snapshot produced by the watch of a service; returns whether it was sent.
+func (d *VerifC17Dedup) Data(name string, csn *pbservice.IndexedCheckServiceNodes) (sent bool, err error) {
+	err = d.m.handleEvent(context.Background(), d.st, cache.UpdateEvent{CorrelationID: subExportedService + name, Result: csn})
+	return d.drain() > 0, err
 }
